@@ -24,7 +24,7 @@ FUZZ_OBJ  := $(patsubst $(H4_SRC)/hdf/src/%.c,$(B)/fuzz/hdf_%.o,$(HDF_C)) $(pats
 WRAPS = -Wl,--wrap=fopen,--wrap=fclose,--wrap=fread,--wrap=fwrite,--wrap=fseek,--wrap=ftell,--wrap=fflush
 
 .PHONY: build tools fuzz all clean
-build: $(B)/h4x
+build: $(B)/h4x $(B)/c06_enum
 all: build tools fuzz
 
 $(B)/san/hdf_%.o: $(H4_SRC)/hdf/src/%.c $(HDRS) | $(B)/san
